@@ -17,6 +17,7 @@ def vsStep (s : VS) (t : String) : Option (VS × String) :=
   | ["cl", i] => do let s' := s.step (.clear (← i.toNat?)); pure (s', showHolders s')
   | ["su", i] => do let s' := s.step (.surrender (← i.toNat?)); pure (s', showHolders s')
   | ["ra", i] => do let s' := s.step (.readopt (← i.toNat?)); pure (s', showHolders s')
+  | ["sa", i] => do let s' := s.step (.selfAssign (← i.toNat?)); pure (s', showHolders s')
   | ["vc", i, ty] => do
       let r := s.cast (← i.toNat?) (← ty.toNat?)
       pure (s, match r with | some v => s!"v{v}" | none => "badcast")
